@@ -234,8 +234,16 @@ func genSelector(repo, out string) {
 				wire := lookup(wireNames, src(ce), "v1alpha1.")
 				row := fmt.Sprintf("⟨%s, .unknown, .unknown, .unknown, .unknown⟩", wire)
 
-				if len(cc.Body) == 1 {
-					if arg := appendArg(cc.Body[0], "labelOpts"); arg != nil {
+				// a leading `if len(term.Value) == 0 { return nil, status.Error[f](codes.InvalidArgument, ..) }`
+				// (the repair of D2) rejects the request before the constructor call and leaves the
+				// translation of every term that does carry a value unchanged: skip it
+				body := cc.Body
+				if len(body) == 2 && isValueGuard(body[0]) {
+					body = body[1:]
+				}
+
+				if len(body) == 1 {
+					if arg := appendArg(body[0], "labelOpts"); arg != nil {
 						if call, ok := arg.(*ast.CallExpr); ok && len(call.Args) >= 1 {
 							ctor := lookup(ctorNames, src(call.Fun), "resource.")
 							key := ".unknown"
@@ -548,4 +556,21 @@ func genSelector(repo, out string) {
 	}
 
 	l.write(out, ns)
+}
+
+// isValueGuard recognises `if len(term.Value) == 0 { return nil, status.Error[f](codes.InvalidArgument, ...) }`.
+func isValueGuard(st ast.Stmt) bool {
+	is, ok := st.(*ast.IfStmt)
+	if !ok || is.Init != nil || is.Else != nil || src(is.Cond) != "len(term.Value) == 0" || len(is.Body.List) != 1 {
+		return false
+	}
+
+	r, ok := is.Body.List[0].(*ast.ReturnStmt)
+	if !ok || len(r.Results) != 2 || src(r.Results[0]) != "nil" {
+		return false
+	}
+
+	t := src(r.Results[1])
+
+	return strings.HasPrefix(t, "status.Errorf(codes.InvalidArgument,") || strings.HasPrefix(t, "status.Error(codes.InvalidArgument,")
 }
